@@ -297,10 +297,19 @@ func (cc *c06Checker) probeLeftOut(cl Call, text string, cands lang.Candidates) 
 		if !ok {
 			continue
 		}
+		// a candidate that does not start with the typed character shows that the character did not
+		// become the prefix of what is being completed (error recovery re-read the surroundings: the
+		// cursor is now in another expression): the two lists are not comparable at all
+		changed := false
 		for _, c := range l2.List {
 			if !strings.HasPrefix(strings.TrimLeft(c.Label, `"`), string(ch)) {
-				continue // the extra character changed the context; not comparable
+				changed = true
 			}
+		}
+		if changed {
+			continue
+		}
+		for _, c := range l2.List {
 			if !have[c.Label] {
 				cc.r.Fail("complete-but-left-out:"+c.Kind.String(), "%s returned %d candidates marked complete, but after typing %q the candidate %q appears which the complete list did not contain", cl, len(cands.List), string(ch), c.Label)
 				return
